@@ -145,7 +145,9 @@ func (k Keeper) EditToken(
 
 	if maxSupply > 0 {
 		issuedAmt := k.getTokenSupply(ctx, token.MinUnit)
-		issuedMainUnitAmt := issuedAmt.Quo(sdkmath.NewIntWithDecimal(1, int(token.Scale)))
+		// round up: a fraction of a main unit in circulation still counts against the cap
+		precision := sdkmath.NewIntWithDecimal(1, int(token.Scale))
+		issuedMainUnitAmt := issuedAmt.Add(precision.SubRaw(1)).Quo(precision)
 
 		if sdkmath.NewIntFromUint64(maxSupply).LT(issuedMainUnitAmt) {
 			return errorsmod.Wrapf(
